@@ -31,6 +31,7 @@ from ..engine import (
     _runaway_observer,
 )
 from ..runner import V
+from ..engine import is_engine_exception as _is_engine_exception
 
 from pokerkit import HandHistory
 
@@ -228,11 +229,15 @@ def check(case, stats):
                 h = HandHistory.from_game_state(game, s, **kwargs)
                 text = h.dumps()
             except Exception as e:  # noqa: BLE001
+                if not _is_engine_exception(e):
+                    raise     # harness fault: exit 2
                 return [V(ID, 'dump_failed', exc_key(e),
                           f'{type(e).__name__}: {e}')]
             try:
                 h2 = HandHistory.loads(text)
             except Exception as e:  # noqa: BLE001
+                if not _is_engine_exception(e):
+                    raise     # harness fault: exit 2
                 return [V(ID, 'load_failed', type(e).__name__,
                           f'{type(e).__name__}: {e}; text:\n{text[:600]}')]
             if h2 != h:
@@ -265,6 +270,8 @@ def check(case, stats):
                 states = list(h2)
                 rs_ = states[-1]
             except Exception as e:  # noqa: BLE001
+                if not _is_engine_exception(e):
+                    raise     # harness fault: exit 2
                 out.append(V(ID, 'replay_failed', exc_key(e),
                              f'{type(e).__name__}: {e}; actions'
                              f' {h2.actions[:40]}'))
